@@ -160,6 +160,13 @@ WorldSpec gen_world(const std::string& prop, uint64_t run_seed, const GenOpts& o
             if (w.n < 30 && r2.chance(0.5)) w.n = 30 + (int) r2.below((uint64_t) (nmax - 29));
         }
     }
+    if (w.family == F_GCHOL || w.family == F_GREGINV)
+    {
+        // triangle options of the product wrapper of A (bit 16) and of DenseCholesky / SparseCholesky / SparseRegularInverse (bit 32)
+        Rng r3 = stream(run_seed, "world-uplo");
+        if (r3.chance(0.3)) w.variant |= 16;
+        if (r3.chance(0.3)) w.variant |= 32;
+    }
     // ---- B ----
     if (family_has_B(w.family))
     {
